@@ -47,19 +47,19 @@ SHARD = 18
 def generate(rng, tier):
     quick = tier != 'thorough'
     cases = []
-    for _ in range(130 if quick else 5000):
+    for _ in range(130 if quick else 3000):
         cases.append(X.gen_schedule(rng))
-    for _ in range(90 if quick else 3500):
+    for _ in range(90 if quick else 2000):
         n = rng.randrange(2, 5)
         c = X.gen_schedule(rng, n_works=n, suspend=False, collide=False, adversarial_frac=0.0,
                            tick_limit=rng.choice([2, 3, 5, 8, 39]))
         make_canary_case(rng, c)
         cases.append(c)
-    for _ in range(30 if quick else 1500):
+    for _ in range(30 if quick else 800):
         c = X.gen_schedule(rng)
         c['kind'] = 'asfound'; c['asfound'] = True
         cases.append(c)
-    for _ in range(36 if quick else 1200):
+    for _ in range(36 if quick else 1000):
         cases.append(gen_http(rng))
     return cases
 
@@ -207,7 +207,7 @@ def gen_http(rng, adv_kind=None):
     return dict(kind='http', convs=convs, adv=ak)
 
 
-HTTP_OPTS = dict(enable_web_server=True, enable_reverse_proxy=True)
+HTTP_OPTS = dict(args=['--enable-web-server', '--enable-reverse-proxy'])
 
 
 def http_opts():
